@@ -2,6 +2,7 @@
  * This translation unit is never compiled with -fsanitize=thread and uses raw
  * futex(2) + relaxed atomics, so ThreadSanitizer sees no happens-before edge
  * from the serialisation itself. */
+#include <errno.h>
 #include <limits.h>
 #include <linux/futex.h>
 #include <stdatomic.h>
@@ -228,7 +229,11 @@ sim_yield_point(int kind)
 	int me = self_id;
 	if (me < 0 || cur != me)
 		return;
+	/* the hand-off (futex) must be invisible to the program: a yield placed
+	 * between "errno = 0" and a libc call would otherwise leak EAGAIN */
+	int saved = errno;
 	switch_from(me, 1);
+	errno = saved;
 }
 
 void
@@ -236,10 +241,12 @@ sim_wait_for(int me, int other, int nops)
 {
 	if (slots[other].ops_done >= nops)
 		return;
+	int saved = errno;
 	slots[me].state = ST_BLOCKED;
 	slots[me].wait_th = other;
 	slots[me].wait_n = nops;
 	switch_from(me, 1);
+	errno = saved;
 }
 
 void
